@@ -497,3 +497,14 @@ Definition accepts (recover : bool) (d : list token) : bool :=
   | _ => false
   end.
 
+(* ---------------------------------------------------------------- what the HDF5 layout refuses
+   Row: (class whose exportHdf5 raises, the tests / loops guarding the raise, outermost first).  The table read
+   off the source must be the reference table the natural-failure documents of the check were written for: a
+   refusal that is dropped, weakened (another test) or added shows as a difference. *)
+Definition refusal_row := (string * list string)%type.
+Fixpoint refusals_eqb (a b : list refusal_row) : bool :=
+  match a, b with
+  | [], [] => true
+  | (c, g) :: a', (c', g') :: b' => String.eqb c c' && strs_eqb g g' && refusals_eqb a' b'
+  | _, _ => false
+  end.
